@@ -263,6 +263,8 @@ func (w *lcWorld) newState() *lcState {
 	}
 	ip.OnExt = func(ip *Interp, name string, args []AV) AV {
 		if name == "lcprop" {
+			// applying a property is an effect on the live configuration like starting or stopping something
+			st.events = append(st.events, "property lcProp="+avStr(args[0]))
 			if len(args) == 1 && avStr(args[0]) == "bad" {
 				return ip.errVal("invalid lcProp")
 			}
@@ -507,7 +509,7 @@ seqLoop:
 						fail(seq, i, "a second Refresh without an intervening Destroy succeeded")
 					}
 					if len(st.events) != len(before) {
-						fail(seq, i, "a rejected second Refresh started or stopped something (%v)", st.events[len(before):])
+						fail(seq, i, "a rejected second Refresh started or stopped something or applied a property (%v): the live configuration is disturbed", st.events[len(before):])
 					}
 					st.active = mdl.live
 				case !cfg.valid:
